@@ -430,6 +430,14 @@ func (c *control) scanDirBlock(buf []byte, pos int, dirName string, open, close 
 			case open:
 				pos = c.scanDirBlock(buf, pos, dirName, open, close, colonOk) + 2
 				tilde = false
+			case '-', '0', '1', '2', '3', '4', '5', '6', '7', '8', '9', ',', '#', 'v':
+				// prefix parameter, remain in tilde
+			case '\'':
+				// Skip the quoted character and stay in tilde.
+				if pos < end {
+					_, size := utf8.DecodeRune(buf[pos:])
+					pos += size
+				}
 			case close:
 				if at || (colon && !colonOk) {
 					c.invalidDir(buf, pos)
@@ -1560,6 +1568,14 @@ func (c *control) scanCond(buf []byte, pos int) ([]string, string, int) {
 				_, _, pos = c.scanCond(buf, pos)
 				pos += 2
 				tilde = false
+			case '-', '0', '1', '2', '3', '4', '5', '6', '7', '8', '9', ',', '#', 'v':
+				// prefix parameter, remain in tilde
+			case '\'':
+				// Skip the quoted character and stay in tilde.
+				if pos < end {
+					_, size := utf8.DecodeRune(buf[pos:])
+					pos += size
+				}
 			case ']':
 				if at || colon {
 					c.invalidDir(buf, pos)
